@@ -210,17 +210,21 @@ func ruleResultMapping(c *Ctx) {
 			if !ok || fd.Body == nil {
 				continue
 			}
-			for _, cl := range litsOfType(pk.TypesInfo, fd.Body, spbPath, "AFTResult") {
-				if insideResultLoop(pk.TypesInfo, fd, cl, okVars, failVars) {
+			if isSimpleHelperDecl(fd) {
+				continue // attributed to its call sites
+			}
+			for _, lr := range litsThroughHelpers(pk.TypesInfo, fd.Body, spbPath, "AFTResult") {
+				cl := lr.Lit
+				if lr.Arg == nil && insideResultLoop(pk.TypesInfo, fd, cl, okVars, failVars) {
 					continue
 				}
 				n++
 				c.Sites++
 				fields := compositeFields(cl)
-				st := constName(pk.TypesInfo, fields["Status"])
+				st := constName(lr.Info, fields["Status"])
 				fn := displayName(pk.TypesInfo.Defs[fd.Name].(*types.Func))
 				idOK := false
-				if idE := fields["Id"]; idE != nil {
+				if idE, mapped := lr.callerExpr(fields["Id"]); idE != nil && mapped {
 					obj, path := selectorPath(pk.TypesInfo, idE)
 					if obj != nil {
 						if _, isParam := obj.(*types.Var); isParam {
@@ -233,7 +237,7 @@ func ruleResultMapping(c *Ctx) {
 						}
 					}
 				}
-				c.check(st == "AFTResult_FAILED" && idOK, rule, fn, "AFTResult literal (non-RIB verdict)", c.P.pos(cl.Pos()),
+				c.check(st == "AFTResult_FAILED" && idOK, rule, fn, "AFTResult literal (non-RIB verdict)", c.P.pos(lr.Site.Pos()),
 					"in-band rejection: FAILED with the operation's own id",
 					fmt.Sprintf("an AFTResult built outside the oks/fails loops must be FAILED with the id of the operation being answered; got Status=%s Id=%s", st, exprStr(fields["Id"])))
 			}
